@@ -434,6 +434,23 @@ fn run_byz_encoder(plan: &Plan, lib: &dyn Lib, rec: &mut Rec) {
                 }
                 must_reject(rec, lib, g, s.ty, cd, &[], "empty exact-length");
             }
+            // the other standard serialization of the same points (uncompressed x || y, twice the length, flags clear), of the
+            // valid point and of a point outside the subgroup: an exact-length / compressed-only decoder returns nothing for it
+            // (share containers hold unparsed bytes by design and are checked at their use sites below)
+            if cd == Codec::Bytes && !is_share && positions.len() == 1 && positions[0].1 + positions[0].0 == s.bytes.len() {
+                let (off, len) = positions[0];
+                let unc: Vec<Vec<u8>> = [Pt::from_bytes(&s.bytes[off..off + len]), Pt::from_bytes_unchecked(&refimpl::off_subgroup_point(len, plan.seed ^ 0x0C))].into_iter().flatten().map(|p| p.to_uncompressed()).collect();
+                for u in unc {
+                    let mut e = s.bytes[..off].to_vec();
+                    e.extend_from_slice(&u);
+                    rec.fault("byz-uncompressed-form");
+                    for c2 in [Codec::Bytes, Codec::BytesVec, Codec::BytesBox] {
+                        let out = recode(rec, lib, g, s.ty, c2, Codec::Bytes, &e);
+                        let bad = matches!(&out, Out::Ok(v) if refimpl::classify_point(&v[0][off.min(v[0].len())..]) != PointClass::Valid) || (fixed_len(s.ty) && out.is_ok());
+                        rec.expect("C16", "malformed-encoding-rejected", !bad, || format!("uncompressed-form {} {} | the x || y serialization ({} bytes) of a point was decoded{}", s.ty.name(), c2.name(), e.len(), if fixed_len(s.ty) { " by an exact-length type" } else { " into a value that is not a subgroup point" }));
+                    }
+                }
+            }
             if is_share {
                 continue;
             }
